@@ -72,7 +72,7 @@ Print Assumptions C17_hex_fields_error.
     text, right-padded with '0' to 256 characters = 128 bytes *)
 Theorem C17_question : forall q,
   q <> [] -> all_digits q ->
-  parse_decimal_challenge q = match rfc6287_question (dec_value q) with Some b => Ok b | None => Err (EStd 3 []) end.
+  parse_decimal_challenge q = match rfc6287_question (dec_value q) with Some b => Ok b | None => Err (EStd 2 []) end.
 Proof. exact parse_decimal_challenge_spec. Qed.
 Print Assumptions C17_question.
 
